@@ -16,7 +16,8 @@ use refnoise::{patterns, state::overheads, CipherAlg, DhAlg, HashAlg, Proto};
 use serde_json::json;
 use std::sync::Arc;
 
-const NOOP_CATS: [Cat; 2] = [Cat::NoOp, Cat::Panic];
+// (a call that panics does not *return* an error: that is C10's business)
+const NOOP_CATS: [Cat; 1] = [Cat::NoOp];
 
 #[derive(Clone, Debug)]
 pub struct Fault {
